@@ -432,7 +432,7 @@ ocp.set_der(v, a)
         ubs = defaultdict(list)
         canons = defaultdict(list)
         for c, meta, args in stage._constraints["control"]:
-            key = (args["refine"],args["group_refine"])
+            key = (args["refine"],args["group_refine"],args["include_first"],args["include_last"])
             (lb,canon,ub), mc = self.constraint_inspector.canon(c)
 
             lbs[key].append(lb)
@@ -443,7 +443,7 @@ ocp.set_der(v, a)
 
         # Loop over lumps
         for k in keys:
-            (refine,group_refine) = k
+            (refine,group_refine,include_first,include_last) = k
             lb = ca.vcat(lbs[k])
             ub = ca.vcat(ubs[k])
             canon = ca.vcat(canons[k])
@@ -453,6 +453,7 @@ ocp.set_der(v, a)
             canon_sym = MX.sym("canon_sym",canon.size1(),refine)
             # Do a grouping along refinement grid if requested
             if group_refine:
+                assert include_first and include_last, "group_refine cannot be combined with include_first=False or include_last=False"
                 assert not ca.depends_on(canon, stage.t)
 
                 # lb <= canon <= ub
@@ -482,7 +483,10 @@ ocp.set_der(v, a)
                     self.opti.subject_to(self.eval(stage, results_max <= ub))
                     self.opti.subject_to(self.eval(stage, results_end <= ub))
             else:
+                # The first (t0) and last (tf) points can be excluded from a path constraint
+                results = results[:, (0 if include_first else 1):(results.shape[1] if include_last else results.shape[1]-1)]
                 n = results.shape[1]
+                if n==0: continue
                 lb = ca.repmat(lb,1,n)
                 ub = ca.repmat(ub,1,n)
                 self.opti.subject_to( self.eval(   stage, ca.vec(lb) <= (ca.vec(results) <= ca.vec(ub))   ) )
